@@ -1,8 +1,11 @@
 (* C15 - The statistical sampler emits valid continua with the reference's statistics.  Proofs in theories/Sampler/StatProofs.v.
    (partial: that np.random.normal / choice follow their laws is NumPy's; the theorems show that the output is the stated function of the declared
-   primitives and is valid for EVERY stream of draws.) *)
-From Coq Require Import List Arith ZArith QArith Qabs Bool.
+   primitives and is valid for EVERY stream of draws.)
+   The C15_src_* theorems at the end are re-proved on every run against genprops/StatGen.v, the translation of the sampler's arithmetic and the
+   statements around it from the CURRENT sampler.py (harness/gen_stat.py). *)
+From Coq Require Import String List Arith ZArith QArith Qabs Qround Bool Lia.
 From PGA Require Import Sampler.Stat Sampler.StatProofs.
+From PGAprops Require Import StatGen.
 Import ListNotations.
 Local Open Scope Q_scope.
 
@@ -41,3 +44,42 @@ Example C15_example :
   stat_sample (1#1000) 2 2 [SNormal (1#4); SNormal 1; SNormal 0; SNormal (-2); SChoice 1; SNormal (1#3)]
   = Some ([[mkSU (0 + 1) (0 + 1 + Qabs (-2)) 1]; []], []).
 Proof. vm_compute. reflexivity. Qed.
+
+(* ---------------------------------------------------------------------------------------------------------------------------------
+   Tie to the source: the end of a unit and its redraw test, the number of units, the start of a unit and the gap expressions ARE the model's;
+   the statements around them (one normal draw for the count, at least one unit while the sample is empty, gap - start - end - redraw - category -
+   add - last_point per unit; the gap list starting with 0; means and standard deviations by NumPy; weights = counts / number of units) have the
+   shape the model was written for. *)
+Theorem C15_src_draw_end prec start d st :
+  draw_end prec start (SNormal d :: st) =
+  (if end_retry_src (end_src start d) start prec then draw_end prec start st else Some (end_src start d, st)).
+Proof. reflexivity. Qed.
+Theorem C15_src_nb_units x : nb_units_src x == inject_Z (Z.of_nat (abs_int x)).
+Proof.
+  unfold nb_units_src, abs_int, qtrunc_src. set (z := if Qle_bool 0 x then Qfloor x else Qceiling x).
+  rewrite Z2Nat.id by apply Z.abs_nonneg. unfold Qabs, inject_Z. cbn. reflexivity.
+Qed.
+Theorem C15_src_unit_start last gap : start_src last gap = last + gap.
+Proof. reflexivity. Qed.
+Theorem C15_src_gaps u v : inner_gaps [u; v] = [inner_gap_src (ru_s v) (ru_e u)] /\
+  leading_gap [u] = (if leading_gap_counts_src (ru_s u) then [leading_gap_src (ru_s u)] else []).
+Proof. split; reflexivity. Qed.
+Theorem C15_src_shape :
+  sample_shape_src =
+  [("annotators"%string, "for annotator in self._ground_truth_annotators"%string);
+   ("per_annotator"%string, "new_continnum.add_annotator(annotator); last_point = 0; nb_units = abs(int(np.random.normal(self._avg_nb_units_per_annotator, self._std_nb_units_per_annotator))); if not new_continnum: nb_units = max(1, nb_units); for _ in range(nb_units)"%string);
+   ("per_unit"%string, "gap = np.random.normal(self._avg_gap, self._std_gap); start = last_point + gap; end = start + abs(np.random.normal(self._avg_unit_duration, self._std_unit_duration)); while ...; category = np.random.choice(self._categories, p=self._categories_weight); new_continnum.add(annotator, Segment(start, end), category); last_point = end"%string);
+   ("new"%string, "self._reference_continuum.copy_flush()"%string);
+   ("return"%string, "return new_continnum"%string)] /\
+  gap_shape_src =
+  [("init"%string, "[0]"%string);
+   ("inner_loop"%string, "for annotator, unit in self._reference_continuum: if annotator != current_annotator: current_annotator = annotator else: gaps.append(unit.segment.start - last_unit.segment.end) last_unit = unit"%string);
+   ("leading_loop"%string, "for annotation_set in self._reference_continuum._annotations.values(): if len(annotation_set) == 0: continue if annotation_set[0].segment.start > 0: gaps.append(annotation_set[0].segment.start)"%string);
+   ("avg"%string, "float(np.mean(gaps))"%string);
+   ("std"%string, "float(np.std(gaps))"%string)] /\
+  statistics_src =
+  [("_set_nb_units_information"%string, "nb_units = [len(annotations) for annotator, annotations in self._reference_continuum._annotations.items()]; self._avg_nb_units_per_annotator = float(np.mean(nb_units)); self._std_nb_units_per_annotator = float(np.std(nb_units))"%string);
+   ("_set_duration_information"%string, "durations = [unit.segment.duration for _, unit in self._reference_continuum]; self._avg_unit_duration = float(np.mean(durations)); self._std_unit_duration = float(np.std(durations))"%string);
+   ("_set_categories_information"%string, "categories_set = self._reference_continuum.categories; self._categories = np.array(categories_set); self._categories_weight = np.zeros(len(categories_set)); for _, unit in self._reference_continuum: self._categories_weight[categories_set.index(unit.annotation)] += 1; self._categories_weight /= self._reference_continuum.num_units"%string);
+   ("init_sampling"%string, "super().init_sampling(reference_continuum, ground_truth_annotators); self._set_gap_information(); self._set_duration_information(); self._set_categories_information(); self._set_nb_units_information()"%string)].
+Proof. repeat split. Qed.
